@@ -854,6 +854,47 @@ func c16(c *core.Ctx) {
 	c.Info("assumptions", "reference PRF' = hand-built HMAC-SHA-256 iteration (RFC 5448 3.4.1)")
 	c.Family("all-length-pairs", 65*65, func(k *core.Case) { c16One(k, k.Index%65, k.Index/65) })
 	c.Require("results_overwritten_then_recomputed", "keys_refreshed_in_place")
+	// runs of derivations whose inputs are the SAME octet string IK'|CK'|identity cut at different places (the end of one
+	// key is the start of the next field): one process, back to back - each must be the reference for ITS cut
+	c.Family("boundary-shift-siblings", c.N(400, 200000), func(k *core.Case) {
+		total := k.R.Range(3, 140)
+		x := k.R.Bytes(total)
+		if k.Index%3 == 0 { // printable: digits as in an IMSI-based identity
+			for i := range x {
+				x[i] = '0' + x[i]%10
+			}
+		}
+		n := k.R.Range(2, 5)
+		for j := 0; j < n; j++ {
+			a := k.R.Range(1, minI(64, total-1))
+			b := a + k.R.Range(1, minI(64, total-a))
+			if j > 0 && k.R.Chance(2, 3) { // move ONE boundary by a few octets relative to the previous cut
+				a, b = k.R.Range(1, minI(64, total-1)), b
+				if b <= a || b-a > 64 {
+					b = a + k.R.Range(1, minI(64, total-a))
+				}
+			}
+			ik, ck, id := append([]byte{}, x[:a]...), append([]byte{}, x[a:b]...), string(x[b:])
+			var kencr, kaut, kre, msk, emsk []byte
+			var err error
+			k.Eval(1)
+			pn := core.Try(func() { kencr, kaut, kre, msk, emsk, err = eap.EapAkaPrimePRF(ik, ck, id) })
+			w := M{"octets": core.Hex(x), "cut_ik_ck": a, "cut_ck_identity": b, "derivation_in_run": j}
+			if pn != nil || err != nil {
+				k.Violate("error", "prf'-boundary-siblings-error", fmt.Sprint(pn, err), w)
+				return
+			}
+			mk := ref.PrfPrime(append([]byte{}, x[:b]...), append([]byte("EAP-AKA'"), x[b:]...), 208)
+			got := append(append(append(append(append([]byte{}, kencr...), kaut...), kre...), msk...), emsk...)
+			if !bytes.Equal(got, mk) {
+				k.Violate("mismatch", "prf'-mismatch/boundary-shift-sibling", fmt.Sprintf("derivation %d of a run over one octet string cut at (%d,%d): keys differ from the reference", j, a, b), w)
+				return
+			}
+			k.Count("boundary_shift_sibling_derivations", 1)
+		}
+		k.Distinct(fmt.Sprintf("bshift|%s|%d", sizeBucket(total), n))
+	})
+	c.Require("boundary_shift_sibling_derivations")
 	// two DIFFERENT key pairs (same identity) that agree in a weak fingerprint of IK'|CK' (or of IK', or of CK'): computed,
 	// not searched - CRC-32 variants, CRC-64 and XOR folds are affine, so the second key is solved for
 	c.Family("colliding-keys", c.N(3*len(core.Fingerprints)*8, 3*len(core.Fingerprints)*400), func(k *core.Case) {
